@@ -60,7 +60,8 @@ C13_ReplyGen == (e.ev = "Join") => (~post.none /\ e.rgen = post.gen)
 
 \* ------------------------------------------------------------------ C14
 C14_JoinOK == (e.ev = "Join" /\ e.code = NONE) => (~post.none /\ \A m \in Mem(post) : post.mem[m].jg = post.gen)
-C14_Leader == (e.ev = "Join") => e.leader \in Mem(post)
+\* every reply that admits the member (NONE / REBALANCE_IN_PROGRESS) names a leader, and a leader named in any reply is a member
+C14_Leader == (e.ev = "Join" /\ (e.code \in {NONE, REBALANCE_IN_PROGRESS} \/ e.leader # "")) => e.leader \in Mem(post)
 C14_ListOnlyLeader == (e.ev = "Join" /\ e.list # {}) => (e.code = NONE /\ e.c = e.leader /\ e.list = Mem(post))
 C14_SyncAfterLeader == (e.ev = "Sync" /\ ~Stale /\ pre.phase = "stable") => e.code = NONE
 
@@ -71,6 +72,12 @@ Proj(g) == IF g.none THEN <<"none">>
 C15_RestoreEqual == (~mem.none /\ ~e.pending) => (~rst.none /\ Proj(rst) = Proj(mem))
 \* the first request after a failover is not fenced ...
 C15_NotFenced == (IsReq /\ restored /\ ~Stale) => e.code \notin {ILLEGAL_GENERATION, UNKNOWN_MEMBER_ID}
+\* ... it acts on the group the store holds: no member disappears (except the one that leaves), the generation does not restart
+\* ("JoinErr" = JoinGroup answered with an error because the store could not be read: nothing may change)
+C15_ActsOnRestored ==
+  (restored /\ e.ev \in {"Join", "JoinErr", "Sync", "Heartbeat", "Leave", "Commit"}) =>
+     /\ (Mem(pre) \ (IF e.ev = "Leave" /\ e.code = NONE THEN {e.c} ELSE {})) \subseteq Mem(post)
+     /\ (~post.none => post.gen >= pre.gen)
 \* ... and as long as the generation in which the failover happened is current, its members keep working without
 \* rejoining: in a stable group every request of a member succeeds and SyncGroup returns the persisted assignment
 C15_KeepWorking == (IsReq /\ ~Stale /\ fgen = pre.gen /\ pre.phase = "stable") =>
